@@ -488,6 +488,25 @@ def repr_coupling(run, model, rule="C06.repr-coupling"):
                 want = {"recomputed", "representable"}
             if fi.name == "visit_Name":
                 kinds.discard("non-builtin")  # the shadowed-builtin test may be a test of its own or a conjunct
+                # a name is shown only if one of the lookup tables binds it (otherwise it is a builtin): either a
+                # flag loop over self._variable_lookup with `node.id in lookup`, or any(...) over the same
+                vl = ("attr", ("param", "self"), "_variable_lookup")
+                idiom = None
+                for h in flow.cfg.nodes:
+                    if h.kind == "next" and any(pp.kind == "iter" and strip_sites(flow.term(pp.ast, pp)) == vl for _, pp in h.pred):
+                        inside = set(id(sub) for st_ in h.stmt.body for sub in ast.walk(st_))
+                        for t2 in flow.cfg.nodes:
+                            if t2.kind == "test" and id(t2.stmt) in inside:
+                                tt2 = strip_sites(flow.term(t2.ast, t2))
+                                if tt2[0] == "op" and tt2[1] == "cmp:In" and tt2[2][0] == ("attr", NODE, "id") and tt2[2][1] == ("elem", vl):
+                                    idiom = "loop"
+                for sub in ast.walk(fi.node):
+                    if isinstance(sub, ast.Call) and isinstance(sub.func, ast.Name) and sub.func.id == "any" and sub.args and isinstance(sub.args[0], ast.GeneratorExp):
+                        g = sub.args[0]
+                        if len(g.generators) == 1 and src_of(g.generators[0].iter) == "self._variable_lookup" and isinstance(g.generators[0].target, ast.Name) and src_of(g.elt) == "node.id in %s" % g.generators[0].target.id and not g.generators[0].ifs:
+                            idiom = "any"
+                if idiom is None and bad is None:
+                    bad = (n, "whether a name is a builtin is not decided by looking it up in the tables of arguments, closure and globals: builtin constants (NotImplemented, Ellipsis, ...) would be listed, or shadowing arguments hidden")
             if kinds != want and bad is None:
                 extra = sorted(kinds - want)
                 missing = sorted(want - kinds)
